@@ -44,6 +44,7 @@ type Exec struct {
 	// configuration set by the harness through vcfg
 	nondetCap   bool
 	mapOrderAll bool
+	appendCapFn map[string]bool
 	mapOrderFn  map[string]bool // nondeterministic order for range statements inside these functions (substring match)
 	fifoSched   bool
 	raceOn      bool
@@ -962,7 +963,7 @@ func (e *Exec) appendSlice(s SliceV, more Value, st types.Type) Value {
 	}
 	// reallocate; capacity policy: exact or exact+slack (nondeterministic when enabled)
 	ncap := need
-	if e.nondetCap {
+	if e.nondetCap || e.capMarked() {
 		if e.choose(2, "cap") == 1 {
 			ncap = need + 1
 		}
@@ -1022,6 +1023,23 @@ func (e *Exec) slice(fr *frame, ins *ssa.Slice) Value {
 		return SliceV{Arr: b.C, Off: lo, Len: hi - lo, Cap: len(arr.E) - lo}
 	}
 	panic(fmt.Sprintf("slice %T", x))
+}
+
+func (e *Exec) capMarked() bool {
+	if len(e.appendCapFn) == 0 {
+		return false
+	}
+	st := e.sch.cur.stack
+	if len(st) == 0 {
+		return false
+	}
+	fn := st[len(st)-1].fn.String()
+	for k := range e.appendCapFn {
+		if strings.Contains(fn, k) {
+			return true
+		}
+	}
+	return false
 }
 
 // load / store with race monitoring hooks
